@@ -342,6 +342,46 @@ FIXTURES = {
 }
 
 
+def r5_4(ctx):
+    """what is shared is identified by all of its bytes: a function that skips writing data
+    into a pool because a table lookup found it (the string pool of the compiler) looks the
+    data up, and records it, under the very (data, length) it writes.  A key that is a
+    digest of the data makes two different literals of other rules - or of the same rule -
+    share one copy: a rule then verifies its matches against another rule's text."""
+    prog = ctx.prog
+    n = 0
+    for f in _compile_fns(ctx):
+        writes = [c for c in f.calls() if c.get('callee') == 'yr_arena_write_data']
+        lookups = [c for c in f.calls() if (c.get('callee') or '').startswith('yr_hash_table_lookup') and
+                   'raw_key' in c['callee']]
+        adds = [c for c in f.calls() if (c.get('callee') or '').startswith('yr_hash_table_add') and
+                'raw_key' in c['callee']]
+        if not (writes and lookups and adds):
+            continue
+        for w in writes:
+            wa = f.call_args(w)
+            if len(wa) < 4:
+                continue
+            content = (canon(f, wa[2]), canon(f, wa[3]))
+            for kind, calls in (('lookup', lookups), ('insert', adds)):
+                for k_, c in enumerate(calls):
+                    a = f.call_args(c)
+                    if len(a) < 3:
+                        continue
+                    n += 1
+                    key = (canon(f, a[1]), canon(f, a[2]))
+                    ok = key == content
+                    ctx.ob('R5.4', '%s:%s#%d:keyed-by-the-data-written' % (f.name, kind, k_), ok, f.loc(c),
+                           'the table is keyed by (%s, %s), the data that is written to the pool' % content if ok
+                           else 'the pool write stores (%s, %s) but the dedup table is keyed by (%s, %s): two '
+                                'different data items with the same key share one copy' % (content + key))
+    return n
+
+
+FIXTURES['R5.4'] = {'src': 'C05/ns.c', 'run': r5_4, 'expect': 'store_data_bad:lookup#0',
+                     'expect_ok': 'store_data_good:lookup#0'}
+
+
 def run(ctx):
     r5_1(ctx)
     ctx.floor('R5.1', 8)
@@ -349,3 +389,5 @@ def run(ctx):
     ctx.floor('R5.2', 1)
     r5_3(ctx)
     ctx.floor('R5.3', 6)
+    r5_4(ctx)
+    ctx.floor('R5.4', 2)
